@@ -5,8 +5,10 @@ import (
 	"fmt"
 	"os"
 	"os/exec"
+	"runtime"
 	"sort"
 	"strings"
+	"sync"
 	"time"
 
 	"google.golang.org/protobuf/encoding/protojson"
@@ -246,7 +248,11 @@ func runC20(c *ctx) {
 		w.close()
 	}
 	// process-wide singleton: child processes
-	for _, mode := range []string{"init-missing", "set-twice"} {
+	modes := []string{"init-missing", "set-twice"}
+	for i := 0; i < 3*c.budget; i++ {
+		modes = append(modes, "set-overlapping")
+	}
+	for _, mode := range modes {
 		cmd := exec.Command(os.Args[0], "C20child:"+mode)
 		cmd.Env = append(os.Environ(), "XDSVERIF_CHILD=1")
 		out, err := cmd.Output()
@@ -256,6 +262,23 @@ func runC20(c *ctx) {
 		}
 		c.emit(obj{"op": "singleton", "mode": mode, "obs": obj{"result": res}})
 	}
+}
+
+// countParkedIn counts the goroutines whose stack contains `frame` and that are parked on a lock.
+func countParkedIn(frame string) int {
+	buf := make([]byte, 1<<21)
+	st := string(buf[:runtime.Stack(buf, true)])
+	n := 0
+	for _, g := range strings.Split(st, "\n\n") {
+		head := g
+		if i := strings.IndexByte(g, '\n'); i >= 0 {
+			head = g[:i]
+		}
+		if (strings.Contains(head, "sync.") || strings.Contains(head, "semacquire")) && strings.Contains(g, frame) {
+			n++
+		}
+	}
+	return n
 }
 
 type markedManager struct {
@@ -278,6 +301,54 @@ func init() {
 		fmt.Printf(" again: panic=%v err=%v inited=%v", p2, err != nil, xdssuite.XDSInited())
 		p3, _ := recoverTo(func() { err = xds.Init() })
 		fmt.Printf(" again: panic=%v err=%v inited=%v\n", p3, err != nil, xdssuite.XDSInited())
+		c.k = -1
+	}
+	// overlapping FIRST initialisations: 16 callers are lined up at their first lock operation inside
+	// SetXDSResourceManager (the script holds the holder's lock; read from the goroutine dump, no timing), then released.
+	// Whatever the order in which they get the lock, one manager wins: what the suite uses right after each caller's own
+	// call returned (a lookup of "probe-<i>" lands in that manager), and in the end, is one and the same manager.
+	props["C20child:set-overlapping"] = func(c *ctx) {
+		const n = 16
+		ms := make([]*stubManager, n)
+		for i := range ms {
+			ms[i] = newStub()
+		}
+		release := xdssuite.VerifHoldManager()
+		var wg sync.WaitGroup
+		for i := 0; i < n; i++ {
+			wg.Add(1)
+			go func(i int) {
+				defer wg.Done()
+				_ = xdssuite.SetXDSResourceManager(ms[i])
+				_, _ = xdssuite.NewXDSResolver().Resolve(nil, fmt.Sprintf("probe-%d", i))
+			}(i)
+		}
+		deadline := time.Now().Add(3 * time.Second)
+		for countParkedIn("xdssuite.SetXDSResourceManager") < n && time.Now().Before(deadline) {
+			time.Sleep(time.Millisecond)
+		}
+		parked := countParkedIn("xdssuite.SetXDSResourceManager")
+		release()
+		wg.Wait()
+		_, _ = xdssuite.NewXDSResolver().Resolve(nil, "probe-final")
+		users := map[int]bool{}
+		final := -1
+		seen := 0
+		for j, m := range ms {
+			m.mu.Lock()
+			for _, g := range m.gets {
+				if g.rt != xdsresource.ClusterType {
+					continue
+				}
+				users[j] = true
+				seen++
+				if g.name == "probe-final" {
+					final = j
+				}
+			}
+			m.mu.Unlock()
+		}
+		fmt.Printf("callers=%d parked=%d lookups=%d managers-used=%d final-used-by-all=%v\n", n, parked, seen, len(users), len(users) == 1 && users[final])
 		c.k = -1
 	}
 	props["C20child:set-twice"] = func(c *ctx) {
